@@ -154,6 +154,9 @@ class ReplayMonitor:
                 return
             for j in range(n):
                 want = per_row[j]["values"][k]
+                if np.size(want) != 1:
+                    ctx.violation("processing one row as floats leaves several values in an output variable", dict(case, variable=ov.name, row=j), "one value", want)
+                    return
                 if not feq(got[j], want):
                     if abs(got[j] - want) <= (1e-9 if not narrow else 2e-5) * max(1.0, abs(want)):
                         ctx.hit("ulp_diff:output value")
